@@ -319,7 +319,7 @@ example :
 migration drains the RDMA engines of ALL GPUs while the compute units keep running). From any reachable
 state in which every engine is paused with no restart pending, on every fair schedule without further
 control commands — the L1 sides may go on issuing (well-formed) requests for ever: they pile up in the
-bounded inside ports — the system settles: every transaction in flight completes and every drain is
+bounded inside ports; no control panic can occur (a paused engine knows whom to acknowledge) — the system settles: every transaction in flight completes and every drain is
 acknowledged (`Settled`: no engine draining, acknowledgements taken), all engines still paused.
 Measure: `sysMu2` = hops left + room left in the inside ports. -/
 theorem sys_live_drain_all (cfgs : List Cfg) (ops0 : List SOp) (σ : Nat → SOp)
@@ -329,12 +329,13 @@ theorem sys_live_drain_all (cfgs : List Cfg) (ops0 : List SOp) (σ : Nat → SOp
     (hno : ∀ t a k, σ t ≠ SOp.ctl a k)
     (hwf : ∀ t, WFOp (sysAt (srun (initSys cfgs) ops0) σ t) (σ t))
     (hfair : ∀ o0 ∈ fairList cfgs.length, ∀ t, ∃ t', t ≤ t' ∧ sameKind (σ t') o0)
-    (hcf : ∀ t (b : Nat) (B : Node), (sysAt (srun (initSys cfgs) ops0) σ t).nodes[b]? = some B → B.s.cfault = none) :
+    (hcf : ∀ (b : Nat) (B : Node), (srun (initSys cfgs) ops0).nodes[b]? = some B → B.s.cfault = none) :
     ∃ t, Settled (sysAt (srun (initSys cfgs) ops0) σ t) ∧ AllPaused (sysAt (srun (initSys cfgs) ops0) σ t) := by
   have h1 := sok_run ops0 _ (sinv_init cfgs) (sok_init cfgs hmap) hw
   have hv := svalid_run _ ops0 (sinv_init cfgs) (svalid_init cfgs hb)
   have hk := cfgOk_run ops0 _ (cfgOk_init cfgs hcfg)
-  have hg := good_along _ σ hwf h1.1 hv h1.2 hk hcf
+  have hr := (allInv_run cfgs ops0 _ (allInv_init cfgs)).reach
+  have hg := good_along _ σ hwf h1.1 hv h1.2 hk (cfault_along_paused cfgs _ σ hr hp hno hcf)
   have hlen : (srun (initSys cfgs) ops0).nodes.length = cfgs.length := by
     have : ∀ (ops : List SOp) (y : Sys), (srun y ops).nodes.length = y.nodes.length := by
       intro ops
@@ -352,12 +353,13 @@ def demo2Paused : Sys := sysAt (srun (initSys demo2) (demo2Ops.take 8)) (rrIssue
 
 example :
     AllPaused (srun (initSys demo2) (demo2Ops.take 8)) ∧
+    (srun (initSys demo2) (demo2Ops.take 8)).nodes.map (fun B => faulted B.s) = [false, false] ∧
     (∀ o0 ∈ fairList 2, ∀ t, ∃ t', t ≤ t' ∧ sameKind (rrIssue 2 0x1040 t') o0) ∧
     Settled demo2Paused ∧
     demo2Paused.nodes.map (fun A => (A.s.pause, A.s.draining, A.ctlGot)) =
       [(true, false, [.drainAck 3]), (true, false, [.drainAck 3])] ∧
     demo2Paused.nodes.map (fun A => (A.got.map (·.rspTo), A.s.io.reqIn.length)) = [([0], 1), ([0], 1)] := by
-  refine ⟨allPaused_of_B (by decide +kernel), rrIssue_fair 2 0x1040, (settledB_iff _).mp (by decide +kernel), by decide +kernel, by decide +kernel⟩
+  refine ⟨allPaused_of_B (by decide +kernel), by decide +kernel, rrIssue_fair 2 0x1040, (settledB_iff _).mp (by decide +kernel), by decide +kernel, by decide +kernel⟩
 
 /-! ## the responders' fairness is necessary -/
 
